@@ -21,6 +21,8 @@ M = [
  ("cfg.py", "def _to_protobuf", "proto_edge.target_uuid = t.uuid.bytes", "proto_edge.target_uuid = s.uuid.bytes", "IR._to_protobuf"),
  ("cfg.py", "def make_edge", "if not isinstance(target, CfgNode):", "if target is None:", "make_edge"),
  ("section.py", "def address", "if 0 < len(index) == len(self.byte_intervals):", "if 0 < len(index):", "section.py::Section.address"),
+ ("serialization.py", "class SetCodec", "Uint64Codec.encode(out, len(items))", "Uint64Codec.encode(out, len(items) + 1)", "SetCodec.encode"),
+ ("serialization.py", "class SetCodec", "serialization._encode_tree(out, item, subtype)", "serialization._encode_tree(out, item, subtypes)", "SetCodec.encode"),
  ("node.py", "def _from_protobuf", "elif cached_node is not None:", "elif False:", "Node._from_protobuf[Symbol]"),
 ]
 
@@ -37,7 +39,10 @@ def run(repo, flt):
 
 
 bad = 0
+SEL = sys.argv[1:]
 for fn, anchor, old, new, flt in M:
+    if SEL and not any(x in flt for x in SEL):
+        continue
     src = open("/repo/python/gtirb/" + fn).read()
     i = src.index(anchor)
     j = src.index(old, i)
